@@ -1,5 +1,7 @@
 package selftest
 
+import "math/bits"
+
 type flog interface {
 	Flush() error
 	Sync() error
@@ -124,4 +126,9 @@ func localInPostBad(h *holder, b []int) error {
 	}
 	h.x = last + 1
 	return nil
+}
+
+// EXPECT pass
+func lenBits(j uint64) int {
+	return bits.Len64(j - 1)
 }
